@@ -16,7 +16,7 @@ def bar_len(divs, beats, beat_type):
 
 def make_part(score, rng, pid="P1", divs=None, n_measures=None, voices=2, staves=1, grace=True, ties=True,
               chords=True, slurs=True, pickup=False, ts_change=False, rests=True, directions=False,
-              alters=(-1, 0, 0, 0, 1), max_notes=40, key=None, clef=True):
+              alters=(-1, 0, 0, 0, 1), max_notes=40, key=None, clef=True, polyphony=False):
     divs = divs or rng.choice([1, 2, 4, 6, 12])
     while True:
         beats, beat_type = rng.choice(TS)
@@ -90,6 +90,12 @@ def make_part(score, rng, pid="P1", divs=None, n_measures=None, voices=2, staves
                         n.grace_prev = g
                         notes.append(g)
                 pos += dur
+    if polyphony:
+        # a sustained note under a moving line inside one voice (needs a second voice in MusicXML)
+        ms, me = bounds[rng.randrange(len(bounds))]
+        n = score.Note(step="B", octave=1, id=new_id(), voice=1, staff=1)
+        part.add(n, ms, me)
+        notes.append(n)
     # ties: consecutive notes of one voice with equal pitch and adjacent in time (force equality)
     if ties:
         by_voice = {}
